@@ -977,6 +977,10 @@ func (tx *Transaction) WriteRequestBody(b []byte) (*types.Interruption, int, err
 
 		if tx.WAF.RequestBodyLimitAction == types.BodyLimitActionProcessPartial {
 			writingBytes = tx.RequestBodyLimit - tx.requestBodyBuffer.length
+			if writingBytes < 0 {
+				// the limit was lowered (ctl:requestBodyLimit) below what is already buffered
+				writingBytes = 0
+			}
 			runProcessRequestBody = true
 		}
 	}
@@ -1247,6 +1251,10 @@ func (tx *Transaction) WriteResponseBody(b []byte) (*types.Interruption, int, er
 
 		if tx.WAF.ResponseBodyLimitAction == types.BodyLimitActionProcessPartial {
 			writingBytes = tx.ResponseBodyLimit - tx.responseBodyBuffer.length
+			if writingBytes < 0 {
+				// the limit was lowered (ctl:responseBodyLimit) below what is already buffered
+				writingBytes = 0
+			}
 			runProcessResponseBody = true
 		}
 	}
